@@ -94,7 +94,13 @@ func workerMain(args []string) int {
 		if trace {
 			fmt.Fprintf(os.Stderr, "[trace] shard %d scenario %d t=%.1fs\n", shard, i, time.Since(t0).Seconds())
 		}
-		f, im := runGuarded(e, sc, ctx)
+		var f *Finding
+		var im string
+		if cs, ok := e.(ColdStarter); ok && cs.ColdStart(sc) {
+			f, im = runFresh(e, sc, ctx)
+		} else {
+			f, im = runGuarded(e, sc, ctx)
+		}
 		if im != "" {
 			res.Infra = append(res.Infra, fmt.Sprintf("scenario %d: %s", i, im))
 			if len(res.Infra) > 5 {
